@@ -59,6 +59,8 @@ struct Inner {
     /// call index -> fault
     plan: BTreeMap<usize, WalFault>,
     calls: usize,
+    /// called right before an I/O call is logged, with the number of calls logged so far (must not touch the store)
+    observer: Option<Arc<dyn Fn(usize) + Send + Sync>>,
 }
 
 #[derive(Clone)]
@@ -154,7 +156,15 @@ impl VWalStore {
             .collect()
     }
 
+    /// Install a callback that runs right before every I/O call takes effect (what else is true at that crash point?).
+    pub fn set_observer(&self, f: Arc<dyn Fn(usize) + Send + Sync>) {
+        self.inner.lock().unwrap().observer = Some(f);
+    }
+
     fn record(&self, i: &mut Inner, op: WalOp) {
+        if let Some(f) = &i.observer {
+            f(i.log.len());
+        }
         i.log.push(op);
         self.log_len.store(i.log.len() as u64, Ordering::SeqCst);
     }
